@@ -121,7 +121,7 @@ def main():
                     for prop in [pid] + [e for e in extra if e != pid]:
                         for tier in (["quick", "thorough"] if thorough else ["quick"]):
                             t = time.time()
-                            r = sh([str(ROOT / "check"), prop, "--tier", tier], cwd=str(ROOT), timeout=7200)
+                            r = sh([str(ROOT / "check"), prop, "--tier", tier], cwd=str(ROOT), timeout=7200, env=dict(os.environ, VERIF_NO_EVIDENCE="1"))
                             verdict = "CAUGHT" if r.returncode == 1 and "VIOLATION" in r.stdout else ("INCONCLUSIVE" if r.returncode == 2 else "MISSED")
                             first = next((l for l in r.stdout.splitlines() if l.startswith(("VIOLATION", "INCONCLUSIVE"))), "")[:300]
                             checks[f"{prop}:{tier}"] = {"verdict": verdict, "wall_s": round(time.time() - t, 1), "first": first}
